@@ -83,6 +83,17 @@ def make_cases(ctx):
                 'shifts': [[rng.randint(0, n - 1), rng.randint(0, n - 1), rng.randint(0, n - 1)], [1, 0, 0], [0, 0, n - 1]],
                 'kmax_frac': rng.choice([None, 0.6, 1.0, 1.5]),
             })
+    # weighted particles through every paint path with several threads (weights have to travel with their particles through
+    # the partition, the wrap, both interlacing paints and both fields)
+    for n in ([8, 12] if quick else [6, 8, 9, 12, 16]):
+        for paste, inter in itertools.product(PASTES, [False, True]):
+            cases.append({
+                'nmesh': n, 'paste': paste, 'compensated': rng.random() < 0.5, 'interlaced': inter, 'binning': rng.choice(binnings),
+                'poles': rng.choice(poleses), 'N': 64, 'seed': rng.randint(0, 10 ** 6), 'weights': True,
+                'nthread': rng.choice([2, 3, 4, 16]), 'threads_alt': sorted(rng.sample([1, 2, 3, 4, 5, 7, 8, 16], 2)),
+                'shifts': [[rng.randint(0, n - 1), rng.randint(0, n - 1), rng.randint(0, n - 1)], [1, 0, 0], [0, 0, n - 1]],
+                'kmax_frac': rng.choice([None, 1.0]),
+            })
     for i, c in enumerate(cases):
         c['id'] = i
     return cases
